@@ -161,4 +161,4 @@ mod test {
 
 #[cfg(kani)]
 #[path = "/verif/kani/hp_obo.rs"]
-mod verif_kani;
+pub(crate) mod verif_kani;
